@@ -21,6 +21,7 @@ import (
 	"strings"
 	"sync"
 	"sync/atomic"
+	"syscall"
 	"testing"
 	"testing/synctest"
 	"time"
@@ -29,9 +30,11 @@ import (
 	"github.com/ARM-software/golang-utils/utils/hashing"
 	"github.com/OneOfOne/xxhash"
 	"github.com/spaolacci/murmur3"
+	"github.com/spf13/afero"
 	"golang.org/x/crypto/blake2b"
 
 	ev "verif/engine/evidence"
+	"verif/engine/vfsx"
 )
 
 func TestMain(m *testing.M) { ev.Main(m) }
@@ -64,12 +67,16 @@ type op struct {
 	Len   int    // content length
 	Chunk int    // reader chunk size (0 = everything at once; -1 = everything at once, together with io.EOF; -7 = chunks of 7, the last one together with io.EOF)
 	At    int    // byte at which the reader fails / the context is cancelled
+	Str   bool   // ok: through CalculateStringHash(hasher, text) instead of the reader entry point
 	Err   string // fail: "" = an error of the harness's own; "unexpected-eof" = io.ErrUnexpectedEOF; "wrapped-eof" = an error wrapping io.EOF
 }
 
 func (o op) String() string {
 	switch o.Kind {
 	case "ok":
+		if o.Str {
+			return fmt.Sprintf("ok-string(len=%d)", o.Len)
+		}
 		return fmt.Sprintf("ok(len=%d,chunk=%d)", o.Len, o.Chunk)
 	default:
 		if o.Err != "" {
@@ -157,6 +164,9 @@ func alphabet(thorough bool) []op {
 			a = append(a, op{Kind: "ok", Len: l, Chunk: c})
 		}
 	}
+	for _, l := range []int{0, 1, 65} {
+		a = append(a, op{Kind: "ok", Len: l, Str: true})
+	}
 	for _, at := range []int{0, 1, 64} {
 		a = append(a, op{Kind: "fail", Len: 100, At: at}, op{Kind: "cancel", Len: 100, At: at})
 		a = append(a, op{Kind: "fail", Len: 100, At: at, Err: "unexpected-eof"}, op{Kind: "fail", Len: 100, At: at, Err: "wrapped-eof"})
@@ -192,6 +202,12 @@ func apply(h hashing.IHash, algo string, o op, salt byte) (got, want string, err
 				err = fmt.Errorf("%w: %v", errPanicked, pv)
 			}
 		}()
+		if o.Kind == "ok" && o.Str {
+			if got = hashing.CalculateStringHash(h, string(data)); got == "" {
+				err = errors.New("CalculateStringHash returned the empty string")
+			}
+			return
+		}
 		got, err = h.CalculateWithContext(ctx, r)
 	}()
 	if o.Kind == "ok" {
@@ -201,6 +217,15 @@ func apply(h hashing.IHash, algo string, o op, salt byte) (got, want string, err
 }
 
 var errPanicked = errors.New("the calculation panicked")
+
+// readInterrupter is a vfsx hook built from two closures.
+type readInterrupter struct {
+	before func(*vfsx.Op) *vfsx.Inject
+	after  func(*vfsx.Op)
+}
+
+func (h *readInterrupter) Before(op *vfsx.Op) *vfsx.Inject { return h.before(op) }
+func (h *readInterrupter) After(op *vfsx.Op)               { h.after(op) }
 
 type violation struct {
 	Algo    string   `json:"algo"`
@@ -483,6 +508,40 @@ func TestC20(t *testing.T) {
 							rep.Violation(fmt.Sprintf("wrong-file-digest:backend=%s:algo=%s:prev=same-file-rewritten-in-place", bname, algo), map[string]any{"path": p, "len": l, "got": got, "want": want, "err": fmt.Sprint(err)})
 						}
 						_ = fs.Rm(p)
+					}
+				}
+			}
+		}
+		// a backend whose Read is interrupted at byte k: n > 0 bytes come back together with EINTR / EAGAIN (FUSE, network and
+		// custom afero backends pass that up). Hashing such a file returns an error, or the digest of the whole file — never,
+		// silently, the digest of something else
+		for _, errno := range []syscall.Errno{syscall.EINTR, syscall.EAGAIN} {
+			for _, k := range []int{1, 1000, 32785, 99999} {
+				for _, algo := range algos[:2] {
+					raw := afero.NewMemMapFs()
+					data := content(100000, 41)
+					_ = afero.WriteFile(raw, "/interrupted.bin", data, 0o644)
+					pos, fired := 0, false
+					hook := &readInterrupter{before: func(op *vfsx.Op) *vfsx.Inject {
+						if op.Kind != vfsx.KFRead || fired {
+							return nil
+						}
+						if pos+op.Len > k && k > pos {
+							fired = true
+							return &vfsx.Inject{Short: k - pos, Err: errno}
+						}
+						return nil
+					}, after: func(op *vfsx.Op) {
+						if op.Kind == vfsx.KFRead {
+							pos += op.N
+						}
+					}}
+					ifs := filesystem.NewVirtualFileSystem(vfsx.NewMem(raw, vfsx.NewShared(hook), 0), filesystem.InMemoryFS, filesystem.IdentityPathConverterFunc)
+					got, err := ifs.FileHash(algo, "/interrupted.bin")
+					fileCases++
+					transitions.Add(1)
+					if want := reference(algo, data); err == nil && got != want {
+						rep.Violation(fmt.Sprintf("wrong-FileHash:backend=interrupted-read:algo=%s", algo), map[string]any{"interrupted_at_byte": k, "errno": errno.Error(), "got": got, "want": want, "interruption_injected": fired})
 					}
 				}
 			}
